@@ -890,7 +890,24 @@ def A17_mass_guess(repo, clause):
                 elif call_name(n) == "argmin":
                     crit = it
             key_src = ast.unparse(crit) if crit is not None else (ast.unparse(keyx) if keyx is not None else "")
-            tparams = [p_ for p_ in f.params if p_ != tolname]
+            tparams = {p_ for p_ in f.params if p_ != tolname}
+            # names computed from the looked-up masses: loop variables over them, locals assigned from them (fixpoint)
+            for _i in range(6):
+                grew = False
+                for x_ in f.all_nodes():
+                    tg_, src_ = None, None
+                    if isinstance(x_, (ast.For, ast.comprehension)):
+                        tg_, src_ = x_.target, x_.iter
+                    elif isinstance(x_, ast.Assign) and len(x_.targets) == 1:
+                        tg_, src_ = x_.targets[0], x_.value
+                    if tg_ is None or not any(isinstance(y_, ast.Name) and y_.id in tparams for y_ in ast.walk(src_)):
+                        continue
+                    for y_ in ast.walk(tg_):
+                        if isinstance(y_, ast.Name) and y_.id not in tparams and y_.id != tolname:
+                            tparams.add(y_.id)
+                            grew = True
+                if not grew:
+                    break
             mentions_target = crit is not None and any(isinstance(x, ast.Name) and x.id in tparams for x in ast.walk(crit))
             keyed = crit is not None
             has_abs = crit is not None and any(isinstance(x, ast.Call) and call_name(x) in ("abs", "fabs", "absolute") for x in ast.walk(crit))
